@@ -23,6 +23,23 @@
 //!                delete stays deleted), whatever B's scan had seen; hash / ordered index queries on
 //!                every value involved must agree with the table; no locks, no transactions left.
 //!
+//!   reap       : 'the locks disappear when the first one ... times out'. Clock-free family: transaction
+//!                timeout 0 s, lock timeout ~115 days; 1-4 transactions write single rows and id ranges in
+//!                a random interleaving (so their locks have different ages), some end normally, the rest
+//!                are timed out as soon as the watched millisecond clock has advanced; then
+//!                TransactionManager::cleanup_expired() runs (sometimes after the expired-lock sweep).
+//!                Demanded right afterwards: no row is locked by a reaped transaction, a new transaction's
+//!                write on every such row is not refused with LockConflict, the reaped ids are refused,
+//!                the lock table is empty once the new writer ended. Timed family (reap-timed, runs beside
+//!                the other parts): 2 s transaction and lock timeouts; an old transaction writes a row 0.9-
+//!                1.4 s into its life, a young one begins at 1.45 s and writes another row, the reaper runs
+//!                at 2.25 s: the old one's young lock is gone, the young transaction is still active, still
+//!                excludes other writers and commits.
+//!                In seq / interleave the reaper and the expired-lock sweep are also called between steps
+//!                (hash of case seed and step decides) and in half of the threads cases continuously from
+//!                an extra thread: nothing has timed out there, so every live transaction stays active and
+//!                keeps the locks seen after its writes.
+//!
 //! About one seq/interleave program in four runs with a tight `max_btree_entries` bound (the number of
 //! ordered-index keys after the initial load plus 0-2), so that inserts and updates legitimately fail
 //! *half-way* with a capacity error (ResultTooLarge from the ordered-index maintenance). A transaction
@@ -132,6 +149,8 @@ struct TxM {
     deleted: BTreeMap<u64, Vec<Value>>,
     /// a statement of this transaction failed half-way (capacity error): only rollback is judged from here on
     poisoned: bool,
+    /// rows whose lock was seen to belong to this transaction right after one of its successful writes
+    held: BTreeSet<u64>,
 }
 
 impl TxM {
@@ -428,6 +447,46 @@ impl<'a> Sim<'a> {
             }
         }
         self.r.count("lock_holder_checks", rows.len() as u64);
+        self.txs[ti].held.extend(rows.iter().copied());
+    }
+
+    /// Nothing has timed out in these programs (transaction and lock timeouts are ~115 days), so the
+    /// reaper of timed-out transactions and the expired-lock sweep must leave every live transaction
+    /// and every lock alone. Decided by a hash of (case seed, step), not by the program's generator.
+    fn step_reap_noop(&mut self, step: u64) {
+        if self.txs.is_empty() || self.dead {
+            return;
+        }
+        let h = hash_combine(self.seed ^ 0x9EA9_0000, step);
+        if h % 6 != 0 {
+            return;
+        }
+        let which = (h >> 8) % 3;
+        let reaped = if which != 1 { self.e.tx_manager().cleanup_expired() } else { 0 };
+        let swept = if which != 0 { self.e.tx_manager().cleanup_expired_locks() } else { 0 };
+        self.trace.push(format!("{} -> ({},{})", ["reap", "sweep", "reap+sweep"][which as usize], reaped, swept));
+        let mut checked = 0u64;
+        for ti in 0..self.txs.len() {
+            let id = self.txs[ti].id;
+            if !self.e.is_transaction_active(id) {
+                let d = format!("transaction {} (timeout ~115 days) is no longer active after TransactionManager::cleanup_expired() = {} / cleanup_expired_locks() = {}", id, reaped, swept);
+                self.violation("reap:live-transaction-removed-before-its-timeout", d);
+                self.dead = true;
+                return;
+            }
+            for row in self.txs[ti].held.clone() {
+                let holder = self.e.tx_manager().row_lock_holder(T, row);
+                if holder != Some(id) {
+                    let d = format!("active transaction {} wrote row {} and held its lock; after TransactionManager::cleanup_expired() = {} / cleanup_expired_locks() = {} (nothing has timed out: timeouts ~115 days) row_lock_holder = {:?}", id, row, reaped, swept, holder);
+                    self.violation("reap:lock-of-live-transaction-dropped-before-its-timeout", d);
+                    self.dead = true;
+                    return;
+                }
+                checked += 1;
+            }
+        }
+        self.r.count("reap_noop_calls", 1);
+        self.r.count("reap_noop_live_locks_checked", checked);
     }
 
     // ---- steps
@@ -439,7 +498,7 @@ impl<'a> Sim<'a> {
             self.dead = true;
         }
         self.trace.push(format!("t{}=begin", id));
-        self.txs.push(TxM { id, undo: vec![], inserted: BTreeSet::new(), updated: BTreeSet::new(), deleted: BTreeMap::new(), poisoned: false });
+        self.txs.push(TxM { id, undo: vec![], inserted: BTreeSet::new(), updated: BTreeSet::new(), deleted: BTreeMap::new(), poisoned: false, held: BTreeSet::new() });
         self.r.count("op:begin", 1);
     }
 
@@ -859,7 +918,11 @@ impl<'a> Sim<'a> {
         self.check_quiescent();
         let steps = 12 + self.rng.below(40);
         let mut tx_statements = 0u64;
-        for _ in 0..steps {
+        for step_no in 0..steps {
+            if self.dead {
+                return;
+            }
+            self.step_reap_noop(step_no as u64);
             if self.dead {
                 return;
             }
@@ -994,7 +1057,25 @@ fn run_threads(case_seed: u64, r: &mut Report) {
     let tick = AtomicU64::new(1);
     let stop = AtomicBool::new(false);
     let replay = json!({"part": "threads", "case_seed": case_seed});
+    // in half of the cases the reaper of timed-out transactions and the expired-lock sweep run beside
+    // the workers all the time: nothing times out here (~115 days), so they must not disturb anybody
+    let with_reaper = (case_seed >> 7) & 1 == 1;
+    let workers_done = AtomicBool::new(false);
+    let reaper_calls = AtomicU64::new(0);
     let results: Vec<(Vec<WriteRec>, Vec<(u64, i64, bool)>, Vec<(String, String)>, u64, u64)> = std::thread::scope(|s| {
+        if with_reaper {
+            let e = &e;
+            let workers_done = &workers_done;
+            let reaper_calls = &reaper_calls;
+            s.spawn(move || {
+                while !workers_done.load(Ordering::Relaxed) {
+                    let _ = e.tx_manager().cleanup_expired();
+                    let _ = e.tx_manager().cleanup_expired_locks();
+                    reaper_calls.fetch_add(1, Ordering::Relaxed);
+                    std::thread::sleep(Duration::from_micros(100));
+                }
+            });
+        }
         let hs: Vec<_> = (0..n_threads)
             .map(|ti| {
                 let mut trng = rng.fork(ti as u64 + 1);
@@ -1094,8 +1175,11 @@ fn run_threads(case_seed: u64, r: &mut Report) {
                 })
             })
             .collect();
-        hs.into_iter().map(|h| h.join().expect("worker thread")).collect()
+        let joined: Vec<_> = hs.into_iter().map(|h| h.join()).collect();
+        workers_done.store(true, Ordering::Relaxed);
+        joined.into_iter().map(|j| j.expect("worker thread")).collect()
     });
+    r.count("threads_concurrent_reaper_calls", reaper_calls.load(Ordering::Relaxed));
     let mut all: Vec<&WriteRec> = Vec::new();
     let mut any_viol = false;
     for (log, _, viol, conflicts, writes) in &results {
@@ -1500,6 +1584,371 @@ fn run_rollback_with_failing_undo(case_seed: u64, r: &mut Report) {
     }
     let _ = e.rollback(t2);
     r.eval(hash_combine(case_seed, 0x75), true);
+}
+
+// ------------------------------------------------------------------------------------------------
+// reap: the locks of a transaction disappear when it times out
+// ------------------------------------------------------------------------------------------------
+//
+// A transaction "times out" when it is older than `transaction_timeout_secs` and the reaper,
+// `TransactionManager::cleanup_expired()`, removes it. The statement demands that its row locks are
+// gone then - all of them, whatever their own age: a lock's clock starts when the row is written, not
+// when the transaction began, so a row written late in the transaction's life carries a lock that is
+// far from its own expiry when the transaction times out.
+//
+//   reap        : clock-free. transaction_timeout_secs = 0 (a transaction is timed out as soon as the
+//                 millisecond clock has advanced past its begin), lock_timeout_secs ~115 days (no lock
+//                 ever expires by itself). 1-4 transactions write single rows and id ranges (update /
+//                 delete) in a random interleaving, some end normally, the clock is watched until it
+//                 is >= 2 ms past the last begin, then the reaper runs (sometimes after the expired-
+//                 lock sweep). Demanded: no row is still locked by a transaction that was open at the
+//                 reap; a new transaction's write on each of those rows is not refused with
+//                 LockConflict; a reaped id is refused; the lock table is empty once the new writer
+//                 has ended.
+//   reap-timed  : the configuration shipped as default shape, lock timeout <= transaction timeout
+//                 (2 s / 2 s; one variant in four keeps the locks for ~115 days): an old transaction
+//                 writes one row at once (optional) and another one 0.9-1.4 s into its life, a young
+//                 transaction begins at 1.45 s and writes a third row, the reaper runs 2.25 s after the
+//                 old one began. Demanded: the late row is not locked by the old transaction any more
+//                 and a new writer is not refused because of it (no window needed: a lock that expired
+//                 by itself is not reported either); while the young transaction is younger than 1.5 s
+//                 it is still active, still excludes a writer from its row and can commit.
+
+fn cfg_timeouts(transaction_timeout_secs: u64, lock_timeout_secs: u64) -> RelationalConfig {
+    RelationalConfig {
+        default_query_timeout_ms: None,
+        max_query_timeout_ms: None,
+        transaction_timeout_secs,
+        lock_timeout_secs,
+        ..RelationalConfig::default()
+    }
+}
+
+fn sys_ms() -> u64 {
+    std::time::SystemTime::now().duration_since(std::time::UNIX_EPOCH).map(|d| d.as_millis() as u64).unwrap_or(0)
+}
+
+fn set_v(v: i64) -> HashMap<String, Value> {
+    [("v".to_string(), Value::Int(v))].into_iter().collect()
+}
+
+fn id_eq(id: u64) -> Condition {
+    Condition::Eq("_id".into(), Value::Int(id as i64))
+}
+
+fn run_reap(case_seed: u64, r: &mut Report) {
+    let replay = json!({"part": "reap", "case_seed": case_seed});
+    let mut rng = Rng::new(case_seed);
+    let e = RelationalEngine::with_config(cfg_timeouts(0, 10_000_000));
+    if e.create_table(T, schema()).is_err() {
+        r.inconclusive("reap: create_table failed");
+        return;
+    }
+    let mut idx = Vec::new();
+    for c in ["k", "v"] {
+        if rng.bool() && e.create_index(T, c).is_ok() {
+            idx.push(format!("hash({})", c));
+        }
+        if rng.bool() && e.create_btree_index(T, c).is_ok() {
+            idx.push(format!("ordered({})", c));
+        }
+    }
+    let n_rows = 4 + rng.below(9) as u64;
+    for i in 0..n_rows {
+        let vals = vec![Value::Int(i as i64), Value::Int((i % 3) as i64), Value::Null, Value::Float(0.0)];
+        if e.insert(T, to_map(&vals)).ok() != Some(i + 1) {
+            r.inconclusive("reap: initial insert failed");
+            return;
+        }
+    }
+    let n_tx = 1 + rng.below(4);
+    let mut txs: Vec<u64> = Vec::new();
+    let mut held: Vec<BTreeSet<u64>> = Vec::new();
+    let mut open: Vec<bool> = Vec::new();
+    let mut trace: Vec<String> = vec![format!("{} rows, indexes {:?}", n_rows, idx)];
+    let mut last_begin_ms = sys_ms();
+    let mut conflicts = 0u64;
+    let steps = 2 + rng.below(12);
+    macro_rules! fail {
+        ($sig:expr, $d:expr) => {{
+            r.violation($sig, format!("{} || transaction timeout 0 s, lock timeout ~115 days | program: {}", $d, trace.join("; ")), replay.clone());
+            return;
+        }};
+    }
+    for _ in 0..steps {
+        let live: Vec<usize> = (0..txs.len()).filter(|i| open[*i]).collect();
+        if txs.len() < n_tx && (live.is_empty() || rng.chance(1, 3)) {
+            let id = e.begin_transaction();
+            last_begin_ms = sys_ms();
+            trace.push(format!("t{}=begin", id));
+            txs.push(id);
+            held.push(BTreeSet::new());
+            open.push(true);
+            continue;
+        }
+        if live.is_empty() {
+            continue;
+        }
+        let ti = live[rng.below(live.len())];
+        let tx = txs[ti];
+        match rng.weighted(&[40, 22, 16, 12, 10]) {
+            k @ (0 | 2) => {
+                let row = 1 + rng.below(n_rows as usize) as u64;
+                let res = if k == 0 { e.tx_update(tx, T, id_eq(row), set_v(100 + tx as i64)) } else { e.tx_delete(tx, T, id_eq(row)) };
+                trace.push(format!("t{}.{} _id={} -> {}", tx, if k == 0 { "update" } else { "delete" }, row, match &res { Ok(n) => format!("Ok({})", n), Err(er) => err_name(er) }));
+                match res {
+                    Ok(1) => {
+                        let h = e.tx_manager().row_lock_holder(T, row);
+                        if h != Some(tx) {
+                            fail!("lock:not-held-after-write", format!("tx {} wrote row {} but row_lock_holder = {:?}", tx, row, h));
+                        }
+                        held[ti].insert(row);
+                    }
+                    Ok(_) => {}
+                    Err(RelationalError::LockConflict { .. }) => conflicts += 1,
+                    Err(er) => fail!(format!("tx-write:unexpected-error:{}", err_name(&er)), format!("write of tx {} on row {} failed: {:?}", tx, row, er)),
+                }
+            }
+            1 => {
+                let a = 1 + rng.below(n_rows as usize) as u64;
+                let b = (a + rng.below(4) as u64).min(n_rows);
+                let c = Condition::Ge("_id".into(), Value::Int(a as i64)).and(Condition::Le("_id".into(), Value::Int(b as i64)));
+                let res = e.tx_update(tx, T, c, set_v(200 + tx as i64));
+                trace.push(format!("t{}.update _id in {}..={} -> {}", tx, a, b, match &res { Ok(n) => format!("Ok({})", n), Err(er) => err_name(er) }));
+                match res {
+                    Ok(n) => {
+                        // which rows of the range it wrote is read off the lock table right away
+                        let mine: Vec<u64> = (a..=b).filter(|row| e.tx_manager().row_lock_holder(T, *row) == Some(tx)).collect();
+                        if mine.len() < n {
+                            fail!("lock:not-held-after-write", format!("tx {} updated {} rows of _id {}..={} but holds the locks of {:?} only", tx, n, a, b, mine));
+                        }
+                        held[ti].extend(mine);
+                    }
+                    Err(RelationalError::LockConflict { .. }) => conflicts += 1,
+                    Err(er) => fail!(format!("tx-write:unexpected-error:{}", err_name(&er)), format!("range update of tx {} failed: {:?}", tx, er)),
+                }
+            }
+            3 => {
+                // the transaction ends in the ordinary way before anything is reaped
+                let commit = rng.bool();
+                let res = if commit { e.commit(tx) } else { e.rollback(tx) };
+                trace.push(format!("t{}.{}", tx, if commit { "commit" } else { "rollback" }));
+                if let Err(er) = res {
+                    fail!(format!("{}:error:{}", if commit { "commit" } else { "rollback" }, err_name(&er)), format!("ending active transaction {} failed: {:?}", tx, er));
+                }
+                open[ti] = false;
+                for row in &held[ti] {
+                    if e.tx_manager().row_lock_holder(T, *row) == Some(tx) {
+                        fail!("lock:still-held-after-end", format!("row {} is still locked by finished transaction {}", row, tx));
+                    }
+                }
+            }
+            _ => {
+                // idle: the rows written so far get older than the ones written afterwards
+                std::thread::sleep(Duration::from_millis(1));
+                trace.push(format!("t{} idle", tx));
+            }
+        }
+    }
+    let victims: Vec<usize> = (0..txs.len()).filter(|i| open[*i]).collect();
+    let locks_before: u64 = victims.iter().map(|i| held[*i].len() as u64).sum();
+    // every open transaction is timed out once the millisecond clock is past its begin
+    std::thread::sleep(Duration::from_millis(2));
+    let mut spins = 0;
+    while sys_ms() < last_begin_ms + 2 {
+        std::thread::sleep(Duration::from_millis(1));
+        spins += 1;
+        if spins > 5_000 {
+            r.inconclusive("reap: the system clock does not advance");
+            return;
+        }
+    }
+    let swept = if rng.chance(1, 3) { Some(e.tx_manager().cleanup_expired_locks()) } else { None };
+    let reaped = e.tx_manager().cleanup_expired();
+    trace.push(format!("sweep -> {:?}; reap -> {}", swept, reaped));
+    r.count("reap_transactions_open_at_reap", victims.len() as u64);
+    r.count("reap_transactions_removed_by_reaper", reaped as u64);
+    r.count("reap_locks_held_by_timed_out_tx_before_reap", locks_before);
+    for &ti in &victims {
+        for row in &held[ti] {
+            let h = e.tx_manager().row_lock_holder(T, *row);
+            if h == Some(txs[ti]) {
+                fail!(
+                    "locks:lock-of-timed-out-transaction-still-held-after-reap",
+                    format!(
+                        "transaction {} wrote row {} and then timed out; TransactionManager::cleanup_expired() = {} (transaction still active: {}); row_lock_holder({}) = {:?}, is_row_locked = {}, active_lock_count = {}",
+                        txs[ti], row, reaped, e.is_transaction_active(txs[ti]), row, h, e.tx_manager().is_row_locked(T, *row), e.tx_manager().active_lock_count()
+                    )
+                );
+            }
+            r.count("reap_locks_gone_after_reap", 1);
+        }
+    }
+    // a transaction that begins now gets every one of those rows
+    let tn = e.begin_transaction();
+    for &ti in &victims {
+        for row in &held[ti] {
+            match e.tx_update(tn, T, id_eq(*row), set_v(777)) {
+                Ok(_) => r.count("reap_rows_given_to_new_writer_after_reap", 1),
+                Err(RelationalError::LockConflict { blocking_tx, .. }) => {
+                    fail!(
+                        "locks:lock-of-timed-out-transaction-still-held-after-reap",
+                        format!("transaction {} wrote row {} and then timed out; after TransactionManager::cleanup_expired() = {} a new transaction's write on the row is refused with LockConflict(blocking_tx = {})", txs[ti], row, reaped, blocking_tx)
+                    );
+                }
+                Err(er) => fail!(format!("tx-write:unexpected-error:{}", err_name(&er)), format!("write of the new transaction {} on row {} failed: {:?}", tn, row, er)),
+            }
+        }
+    }
+    // a transaction the reaper has removed cannot be used again
+    for &ti in &victims {
+        let id = txs[ti];
+        if e.is_transaction_active(id) {
+            r.count("reap_timed_out_transaction_still_active_after_reap", 1);
+            let _ = e.rollback(id);
+            continue;
+        }
+        let op = rng.below(5);
+        let name = ["tx_insert", "tx_update", "tx_delete", "commit", "rollback"][op];
+        let res: Result<(), RelationalError> = match op {
+            0 => e.tx_insert(id, T, to_map(&[Value::Int(99), Value::Int(9), Value::Null, Value::Float(0.0)])).map(|_| ()),
+            1 => e.tx_update(id, T, Condition::True, set_v(9)).map(|_| ()),
+            2 => e.tx_delete(id, T, Condition::True).map(|_| ()),
+            3 => e.commit(id),
+            _ => e.rollback(id),
+        };
+        match res {
+            Ok(()) => fail!(format!("finished-tx:accepted-after-timeout-reap:{}", name), format!("{} with transaction id {} succeeded after that transaction had timed out and been removed by the reaper", name, id)),
+            Err(_) => r.count("reap_reaped_id_refused", 1),
+        }
+    }
+    let end = if rng.bool() { e.commit(tn) } else { e.rollback(tn) };
+    if let Err(er) = end {
+        fail!(format!("commit:error:{}", err_name(&er)), format!("ending the new transaction {} failed: {:?}", tn, er));
+    }
+    let locks = e.tx_manager().active_lock_count();
+    if locks != 0 {
+        fail!("quiescent:locks-or-transactions-left", format!("reap: every transaction has ended or timed out and been reaped, active_lock_count = {}", locks));
+    }
+    r.count("reap_lock_conflicts_before_reap", conflicts);
+    r.eval(hash_str(&trace.join(";")), locks_before >= 1 && !victims.is_empty());
+    r.count("programs:reap", 1);
+    if r.want_sample() && locks_before >= 2 {
+        r.sample(json!({"part": "reap", "case_seed": case_seed, "program": trace}));
+    }
+}
+
+fn sleep_until(t0: Instant, ms: u64) {
+    std::thread::sleep(Duration::from_millis(ms).saturating_sub(t0.elapsed()));
+}
+
+fn run_reap_timed(case_seed: u64, r: &mut Report) {
+    let replay = json!({"part": "reap-timed", "case_seed": case_seed});
+    const TX_MS: u64 = 2_000;
+    let lock_secs: u64 = if case_seed & 3 == 3 { 10_000_000 } else { 2 };
+    let lock_ms = lock_secs.saturating_mul(1_000);
+    let e = RelationalEngine::with_config(cfg_timeouts(TX_MS / 1_000, lock_secs));
+    if e.create_table(T, schema()).is_err() {
+        r.inconclusive("reap-timed: setup failed");
+        return;
+    }
+    if case_seed & 1 == 0 {
+        let _ = e.create_index(T, "k");
+        let _ = e.create_btree_index(T, "v");
+    }
+    for k in 1..=4i64 {
+        if e.insert(T, to_map(&[Value::Int(k), Value::Int(k * 10), Value::Null, Value::Float(0.0)])).ok() != Some(k as u64) {
+            r.inconclusive("reap-timed: setup failed");
+            return;
+        }
+    }
+    let early_write = case_seed & 2 != 0;
+    let late_is_delete = case_seed & 4 != 0;
+    let late_at = 900 + (case_seed >> 4) % 500;
+    let told = e.begin_transaction();
+    let old_begun = Instant::now(); // the engine's clock for `told` started before this instant
+    if early_write && !matches!(e.tx_update(told, T, id_eq(1), set_v(11)), Ok(1)) {
+        r.count("reap_timed_setup_write_refused", 1);
+        return;
+    }
+    sleep_until(old_begun, late_at);
+    let late_locked = Instant::now(); // the late lock is younger than this instant
+    let w = if late_is_delete { e.tx_delete(told, T, id_eq(2)) } else { e.tx_update(told, T, id_eq(2), set_v(22)) };
+    if !matches!(w, Ok(1)) {
+        r.count("reap_timed_setup_write_refused", 1);
+        return;
+    }
+    sleep_until(old_begun, 1_450);
+    let young_begun = Instant::now(); // the young transaction and its lock are younger than this instant
+    let young = e.begin_transaction();
+    if !matches!(e.tx_update(young, T, id_eq(3), set_v(33)), Ok(1)) {
+        r.count("reap_timed_setup_write_refused", 1);
+        return;
+    }
+    // the old transaction is 250 ms past its timeout
+    sleep_until(old_begun, TX_MS + 250);
+    let reaped = e.tx_manager().cleanup_expired();
+    let ctx = format!(
+        "transaction timeout 2 s, lock timeout {} s; old transaction {} began, {}wrote row 2 ({}) {} ms later; young transaction {} began {} ms after the old one and wrote row 3; TransactionManager::cleanup_expired() = {} ran {} ms after the old one began",
+        lock_secs, told, if early_write { "wrote row 1 at once, " } else { "" }, if late_is_delete { "delete" } else { "update" }, late_at, young,
+        young_begun.duration_since(old_begun).as_millis(), reaped, old_begun.elapsed().as_millis()
+    );
+    r.count("reap_timed_transactions_removed_by_reaper", reaped as u64);
+    // 1. every lock of the timed-out transaction is gone, also the one that is far from its own expiry
+    for row in [1u64, 2] {
+        let h = e.tx_manager().row_lock_holder(T, row);
+        if h == Some(told) {
+            r.violation(
+                "locks:lock-of-timed-out-transaction-still-held-after-reap",
+                format!("{}; afterwards row_lock_holder({}) = {:?} (old transaction still active: {}), active_lock_count = {}", ctx, row, h, e.is_transaction_active(told), e.tx_manager().active_lock_count()),
+                replay,
+            );
+            return;
+        }
+    }
+    let t3 = e.begin_transaction();
+    let res2 = e.tx_update(t3, T, id_eq(2), set_v(5));
+    if let Err(RelationalError::LockConflict { blocking_tx, .. }) = &res2 {
+        if *blocking_tx == told {
+            r.violation("locks:lock-of-timed-out-transaction-still-held-after-reap", format!("{}; afterwards a new transaction's write on row 2 is refused with LockConflict(blocking_tx = {})", ctx, blocking_tx), replay);
+            return;
+        }
+    }
+    if (late_locked.elapsed().as_millis() as u64) + 400 < lock_ms {
+        // the lock could not have expired by itself yet: its absence is the reaper's doing
+        r.count("reap_timed_young_lock_of_timed_out_tx_gone", 1);
+    } else {
+        r.count("reap_timed_window_missed", 1);
+    }
+    // 2. the young transaction is not touched
+    let active = e.is_transaction_active(young);
+    let res3 = e.tx_update(t3, T, id_eq(3), set_v(6));
+    let end_young = e.commit(young);
+    let young_age = young_begun.elapsed().as_millis() as u64;
+    if young_age + 500 < TX_MS && young_age + 500 < lock_ms {
+        if !active {
+            r.violation("reap:live-transaction-removed-before-its-timeout", format!("{}; the young transaction ({} ms old) is no longer active", ctx, young_age), replay);
+            return;
+        }
+        if !matches!(res3, Err(RelationalError::LockConflict { .. })) {
+            r.violation(
+                "exclusion:lock-of-live-transaction-lost-when-another-transaction-is-reaped",
+                format!("{}; a third transaction's write on row 3 got {:?} although the young transaction (<= {} ms old, active) had modified it", ctx, res3, young_age),
+                replay,
+            );
+            return;
+        }
+        if let Err(er) = &end_young {
+            r.violation(format!("commit:error:{}", err_name(er)), format!("{}; committing the young transaction (<= {} ms old) failed: {:?}", ctx, young_age, er), replay);
+            return;
+        }
+        r.count("reap_timed_live_transaction_and_lock_survive_reap", 1);
+    } else {
+        r.count("reap_timed_window_missed", 1);
+    }
+    let _ = e.rollback(t3);
+    r.eval(hash_combine(case_seed & 7, hash_combine(late_at, 0x76)), true);
+    r.count("programs:reap-timed", 1);
 }
 
 // ------------------------------------------------------------------------------------------------
@@ -2272,6 +2721,8 @@ fn main() {
         "timeout-partial" => run_timeout_partial(seed, r),
         "rollback-after-expiry" => run_rollback_after_expiry(seed, r),
         "rollback-failing-undo" => run_rollback_with_failing_undo(seed, r),
+        "reap" => run_reap(seed, r),
+        "reap-timed" => run_reap_timed(seed, r),
         "scanrace" => run_scanrace(seed, false, None, r),
         "scanrace-big" => run_scanrace(seed, true, None, r),
         other => r.inconclusive(&format!("unknown part {}", other)),
@@ -2336,6 +2787,36 @@ fn main() {
             } else {
                 None
             };
+            // the timed reaper scenarios sleep (2.3 s each): all of them side by side, beside everything else
+            let th_reap = if want("reap") {
+                let rounds = args.by_tier(1usize, 6usize);
+                let seed = args.seed;
+                Some(sc.spawn(move || {
+                    let mut r = Report::new();
+                    for round in 0..rounds {
+                        std::thread::scope(|s2| {
+                            let hs: Vec<_> = (0..8u64).map(|j| s2.spawn(move || {
+                                let mut rr = Report::new();
+                                run_reap_timed(case_seed(seed ^ 0x7C, round as u64 * 8 + j) & !7 | j, &mut rr);
+                                rr
+                            })).collect();
+                            for h in hs {
+                                if let Ok(x) = h.join() {
+                                    r.merge(x);
+                                }
+                            }
+                        });
+                    }
+                    r
+                }))
+            } else {
+                None
+            };
+            if want("reap") {
+                let n = args.by_tier(3_000u64, 200_000u64);
+                let rep = par_cases(args.threads, args.seed ^ 0x4EA9, n, args.budget(5, 120), |_i, s, r| run_reap(s, r));
+                total.merge(rep);
+            }
             if want("seq") {
                 let n = args.by_tier(6_000u64, 400_000u64);
                 let rep = par_cases(args.threads, args.seed ^ 0x51, n, args.budget(15, 240), |_i, s, r| run_program("seq", s, r, false));
@@ -2362,6 +2843,11 @@ fn main() {
                 total.merge(rep);
             }
             if let Some(h) = th {
+                if let Ok(r) = h.join() {
+                    total.merge(r);
+                }
+            }
+            if let Some(h) = th_reap {
                 if let Ok(r) = h.join() {
                     total.merge(r);
                 }
@@ -2394,13 +2880,27 @@ fn main() {
                 ("scanrace_commit_inside_wide_statement_then_rollback", 1),
             ]);
         }
+        if want("seq") || want("interleave") {
+            floors.extend([("reap_noop_calls", 300u64), ("reap_noop_live_locks_checked", 300)]);
+        }
+        if want("reap") {
+            floors.extend([
+                ("programs:reap", 200u64),
+                ("reap_locks_held_by_timed_out_tx_before_reap", 300),
+                ("reap_locks_gone_after_reap", 300),
+                ("reap_rows_given_to_new_writer_after_reap", 300),
+                ("reap_reaped_id_refused", 100),
+                ("reap_timed_young_lock_of_timed_out_tx_gone", 3),
+                ("reap_timed_live_transaction_and_lock_survive_reap", 3),
+            ]);
+        }
         if want("timeout") {
             floors.extend([("timeout_release_seen", 1u64), ("timeout_partial_other_lock_survives_takeover", 2), ("timeout_partial_locks_gone_after_sweep_and_end", 2), ("rollback_after_expiry_restored", 4), ("timeout_takeover_lock_released_when_new_holder_ends", 1)]);
         }
     }
     let meta = Meta {
         property: "C09",
-        rule: "one evaluation = one executed program (seq: one transaction at a time; interleave: 2-4 transactions in a random single-threaded interleaving; threads: 2-8 real threads; timeout: lock expiry, take-over of an expired lock while the old holder ends, take-over of ONE expired lock of a transaction whose other lock is still fresh, the expired-lock sweep followed by the end of the transaction, rollback after the transaction's own locks expired, and rollback with an undo step that cannot be carried out; scanrace: one round = one wide multi-row statement of a transaction that then commits or rolls back, raced by 1-3 threads of small single-row transactions on rows it matches, judged when all have ended) that passed every per-step check; distinct by hash of the executed statement trace; non-trivial when it contains >=3 transactional statements and at least one finished transaction (threads: at least one lock conflict occurred; scanrace: the wide statement succeeded on >=1 row and at least one small write was applied)",
+        rule: "one evaluation = one executed program (seq: one transaction at a time; interleave: 2-4 transactions in a random single-threaded interleaving; threads: 2-8 real threads; timeout: lock expiry, take-over of an expired lock while the old holder ends, take-over of ONE expired lock of a transaction whose other lock is still fresh, the expired-lock sweep followed by the end of the transaction, rollback after the transaction's own locks expired, and rollback with an undo step that cannot be carried out; reap: 1-4 transactions write rows, some end, the rest time out and TransactionManager::cleanup_expired() removes them - judged on the lock table and on a new writer right after the reaper returned; reap-timed: the same with 2 s timeouts, a row written late in the old transaction's life and a young transaction that must survive; scanrace: one round = one wide multi-row statement of a transaction that then commits or rolls back, raced by 1-3 threads of small single-row transactions on rows it matches, judged when all have ended) that passed every per-step check; distinct by hash of the executed statement trace; non-trivial when it contains >=3 transactional statements and at least one finished transaction (threads: at least one lock conflict occurred; scanrace: the wide statement succeeded on >=1 row and at least one small write was applied)",
         assumptions: vec![
             "per-step state checks only judge rows no active transaction has touched, so they hold under any isolation level; whole-table, index-battery and lock-table checks run whenever no transaction is active".into(),
             "a write whose condition matches a row *updated* by another active transaction must fail with LockConflict; for rows *inserted* or *deleted* by another active transaction either LockConflict or 'row not visible' is accepted, but actually modifying such a row is a violation".into(),
@@ -2408,6 +2908,8 @@ fn main() {
             "value pools avoid -0.0 and omitted nullable columns (known C04 index defects) so that index answers can be compared with Condition::evaluate".into(),
             "lock/transaction timeouts are ~115 days except in the timeout part (1 s; conflict demanded only within 0.3 s - 0.85 s for the partial-expiry scenario -, release demanded only after 10 s)".into(),
             "scanrace: all writers take row locks and the small writers retry until they are applied or the wide transaction has ended, so per row the final state must be one that some order of the statements explains; after a rollback (or a refused statement) of the wide transaction that is exactly what the small transactions committed. No isolation level is demanded: the wide statement may also act on a row that matched its condition in an earlier state of that order, rolled-back small writes never touch the columns the wide condition reads, and 'row not visible' (Ok(0)) while the wide transaction has a delete pending is retried, not judged. The counter scanrace_commit_inside_successful_wide_statement counts small transactions on a matching row that began after the wide statement's call started and had committed before it returned (ticks of one atomic counter) - since the wide transaction keeps its locks until it ends, those commits came before it locked the row. Start offsets derived from a measured table pass only shape the workload".into(),
+            "reap: 'times out' is taken to mean what the code offers - the transaction is older than transaction_timeout_secs and TransactionManager::cleanup_expired() has run; after that none of its rows may be locked by it and a new writer must not get LockConflict from it, whatever the age of the individual lock. The clock-free family uses transaction_timeout_secs = 0 (timed out once the millisecond system clock, which the harness watches, is >= 2 ms past the last begin) and a ~115-day lock timeout; before the reap nothing is demanded of those already-timed-out transactions (conflicts are only counted). What becomes of the reaped transaction's row changes is not judged (the statement is silent). reap-timed uses 2 s / 2 s (one variant in four: ~115-day locks): the reaper runs >= 250 ms after the old transaction's timeout; 'lock still held by the reaped transaction' needs no window (a lock that expired by itself is not reported as held); the young transaction (begun 1.45 s after the old one) is judged only while it is < 1.5 s old, otherwise the case counts as reap_timed_window_missed. A transaction the reaper has removed counts as finished: using its id must be refused".into(),
+            "seq/interleave/threads: nothing times out (~115 days), so cleanup_expired() / cleanup_expired_locks() - called between steps where a hash of (case seed, step) says so, and continuously from an extra thread in half of the threads cases - must leave live transactions active and the locks seen right after their successful writes in place".into(),
             "threads: ticks taken right after a successful tx_update lie inside that writer's lock interval; the final value of a row must be the token of the committed write with the largest tick".into(),
         ],
         floors,
